@@ -2,6 +2,7 @@ mod mkpdf;
 mod observe;
 mod report;
 mod rx_xref;
+mod rx_store;
 
 fn main() {
     let args: Vec<String> = std::env::args().collect();
@@ -12,6 +13,7 @@ fn main() {
     let opts: Vec<String> = args.iter().skip(4).cloned().collect();
     match args[1].as_str() {
         "xref" => rx_xref::run(&args[2], &args[3], &opts),
+        "store" => rx_store::run(&args[2], &args[3], &opts),
         m => {
             eprintln!("unknown module {}", m);
             std::process::exit(2);
